@@ -209,6 +209,34 @@ def check_stability(case, ctx):
 
 
 @st.composite
+def s_homog(draw):
+    fam = draw(LD.bar_family(1, 6, dup_bias=True))
+    return {"fam": fam, "p": draw(PS), "c": draw(st.one_of(st.sampled_from([-1.0, 2.0, 3.0, -0.5]), finite(1e-3, 10))), "how": draw(st.sampled_from(["mul", "rmul", "div"]))}
+
+
+def check_homog(case, ctx):
+    """landscapes built from DIAGRAMS, repeated bars likely (their depths share list objects): the norm is that of the functions the object
+    represents, and scalar multiples scale it - whether or not the repeated-bar shortcut of C03's open finding fired"""
+    bars = case["fam"]["dgms"][0]
+    p, c = case["p"], case["c"]
+    P = LD.exact_from_bars(ctx, bars)
+    own = [[[float(q[0]), float(q[1])] for q in d] for d in P.critical_pairs]
+    ctx.label(p_class(p), "repeated_bar" if LD.has_repeated(bars) else None, "shortcut_fired" if LD.shortcut_fired(P) else None, "how:" + case["how"])
+    ctx.nontrivial(LD.has_repeated(bars) and len(bars) >= 3)
+    ref = pl.p_norm(own, p)
+    v = norm_of(ctx, P, p)
+    ctx.require(abs(v - ref) <= 1e-8 * ref + 1e-300, "p_norm_of_diagram_landscape", lambda: "p_norm(%r)=%r, integral of its own critical pairs %r; bars=%s" % (p, v, ref, bars))
+    Q = ctx.call((lambda: P * c) if case["how"] == "mul" else (lambda: c * P) if case["how"] == "rmul" else (lambda: P / (1.0 / c)))
+    nq = norm_of(ctx, Q, p)
+    ctx.require(abs(nq - abs(c) * ref) <= 1e-8 * abs(c) * ref + 1e-300, "homogeneity_diagram_landscape",
+                lambda: "||%s by %r||_%r = %r, |c| ||P|| = %r; bars=%s" % (case["how"], c, p, nq, abs(c) * ref, bars))
+    sq = float(ctx.call(Q.sup_norm))
+    ctx.require(close(sq, abs(c) * pl.sup_norm(own), 0.0), "sup_homogeneity_diagram_landscape", lambda: "sup norm %r vs |c| sup %r; bars=%s" % (sq, abs(c) * pl.sup_norm(own), bars))
+    after = [[[float(q[0]), float(q[1])] for q in d] for d in P.critical_pairs]
+    ctx.require(after == own, "operand_modified", lambda: "the landscape changed while its multiple was taken; bars=%s" % bars)
+
+
+@st.composite
 def s_integer(draw):
     """integer-valued critical pairs / samples (the literal form the documentation and the repository's tests use), heights up to thousands"""
     k = draw(st.integers(1, 3))
@@ -291,6 +319,9 @@ CLAUSES = [
     Clause("lazy_first_use", s_lazy(), check_lazy, quick=1500, thorough=20000,
            rule="PersLandscapeExact(dgms, compute=False) whose FIRST use is p_norm (or sup_norm): the value equals the integral of the eagerly "
                 "computed twin; non-trivial = >= 2 bars"),
+    Clause("diagram_multiples", s_homog(), check_homog, quick=3000, thorough=40000,
+           rule="exact landscapes built from diagrams with repeated bars likely (depths share list objects): p_norm equals the integral of the object's own "
+                "critical pairs, P*c / c*P / P/(1/c) scale p-norm and sup norm by |c| and leave P unchanged; non-trivial = a repeated bar and >= 3 bars"),
     Clause("integer_valued", s_integer(), check_integer, quick=3000, thorough=40000,
            rule="integer-typed critical pairs (Python ints) and int64 sample arrays with heights up to 70000: p_norm vs the reference integral of the same "
                 "function, sup norm, homogeneity; non-trivial = max height^(p+1) >= 2^63 (beyond 64-bit integer arithmetic)"),
